@@ -76,3 +76,54 @@ Proof.
   unfold e_can_put. rewrite GE. rewrite <- LS.
   destruct (ek ed); rewrite ?CB, ?CF; split; intros Hc; first [apply Ry; exact Hc | apply Rn; exact Hc].
 Qed.
+
+(* ---- with the token alignment of FactoryTok.v: the event the process waits on is triggered *)
+From FV Require FactoryTok.
+
+Lemma nth_upd_same {A} n (f : A -> A) : forall l d, (n < length l)%nat -> nth n (upd n f l) d = f (nth n l d).
+Proof. induction n as [|n IH]; intros [|x l] d L; simpl in *; try lia; auto. apply IH. lia. Qed.
+Lemma nth_app_last {A} (l : list A) x d : nth (length l) (l ++ [x]) d = x.
+Proof. rewrite app_nth2 by lia. rewrite Nat.sub_diag. reflexivity. Qed.
+
+Theorem probe_yes_reservation_triggered nodes edges order n :
+  Forall (fun ed => StoreBWeak.WN (est ed)) edges ->
+  Forall (fun ed => StoreB.next (est ed) = 0%nat) edges ->
+  let w := FactoryInv.iter_fstep n (mk_world nodes edges order) in
+  forall e p, (e < length (wedges w))%nat -> e_can_put w e = true ->
+    e_trig (get_ev (wk (fst (e_reserve_put w e p))) (snd (e_reserve_put w e p))) = true.
+Proof.
+  intros HW HN w e p L CP.
+  destruct (nth_error (wedges w) e) as [ed|] eqn:EN; [|apply nth_error_None in EN; lia].
+  pose proof (FactoryTok.tokens_aligned_everywhere nodes edges order n HN e ed EN) as TA. fold w in TA.
+  set (ev := length (evs (wk w))) in *.
+  destruct (probe_decides_grant_everywhere nodes edges order n HW e ev p L) as (PY & _). fold w in PY.
+  specialize (PY CP).
+  assert (get_edge w e = ed) as GE by (unfold get_edge; apply nth_error_nth; exact EN).
+  assert (StoreB.next (synced w e ev) = ev) as NS.
+  { unfold synced. rewrite GE. apply FactoryTok.sync_sets_next. exact TA. }
+  rewrite NS in PY.
+  destruct (e_reserve_put w e p) as [w' t] eqn:ER. cbn [fst snd]. unfold e_reserve_put in ER.
+  destruct (w_event w) as [wa ev'] eqn:E1. destruct (store_op wa e (StoreB.Sync ev')) as [[wb r1] t1] eqn:E2.
+  destruct (store_op wb e (StoreB.RPut p 0)) as [[wc r2] t2] eqn:E3. injection ER as ERa ERb. subst w' t.
+  unfold w_event in E1. simpl in E1. injection E1 as E1a E1b. subst ev'. fold ev in E1a |- *.
+  assert (get_edge wa e = ed) as GA by (rewrite <- E1a; unfold get_edge; cbn [wedges set]; simpl; fold (get_edge w e); exact GE).
+  assert (length (wedges wa) = length (wedges w)) as LA by (rewrite <- E1a; reflexivity).
+  assert (wk wa = set_evs (wk w) (evs (wk w) ++ [ev0])) as KA by (rewrite <- E1a; reflexivity).
+  unfold store_op in E2. rewrite GA in E2. fold ev in E2.
+  destruct (StoreB.step (est ed) (StoreB.Sync ev)) as [[s1 r0] ts0] eqn:S1. cbv beta iota zeta in E2. injection E2 as E2a E2b E2c. subst wb r1 t1.
+  assert (s1 = synced w e ev) as ES1 by (unfold synced, StoreB.step_st; rewrite GE, S1; reflexivity).
+  assert (get_edge (upd_edge wa e (fun x => x <| est := s1 |>)) e = ed <| est := s1 |>) as GB.
+  { unfold get_edge, upd_edge. cbn [wedges set]. simpl. rewrite nth_upd_same by (rewrite LA; exact L).
+    fold (get_edge wa e). rewrite GA. reflexivity. }
+  unfold store_op in E3. rewrite GB in E3. change (est (ed <| est := s1 |>)) with s1 in E3.
+  destruct (StoreB.step s1 (StoreB.RPut p 0)) as [[s2 r3] ts3] eqn:S2. cbv beta iota zeta in E3. injection E3 as E3a E3b E3c. subst wc r2 t2.
+  assert (ts3 = [ev]) as -> by (rewrite ES1 in S2; rewrite S2 in PY; exact PY).
+  unfold w_succeed_all. cbn [fold_left]. unfold w_succeed.
+  assert (wk (upd_edge (upd_edge wa e (fun x => x <| est := s1 |>)) e (fun x => x <| est := s2 |>)) = wk wa) as KW by reflexivity.
+  rewrite KW, KA. unfold succeed.
+  assert (get_ev (set_evs (wk w) (evs (wk w) ++ [ev0])) ev = ev0) as G0.
+  { unfold get_ev. simpl. unfold ev. apply nth_app_last. }
+  rewrite G0. cbn [e_trig ev0]. cbn [wk set]. simpl.
+  unfold get_ev, schedule, mark_trig. simpl.
+  rewrite nth_upd_same by (rewrite app_length; simpl; unfold ev; lia). reflexivity.
+Qed.
